@@ -29,8 +29,27 @@ pub mod gen {
         out
     }
     /// number of leading documents that every query is evaluated on in the quick tier
-    pub fn always() -> usize { curated().len() + leaves().len() }
+    pub fn always() -> usize { static N: std::sync::OnceLock<usize> = std::sync::OnceLock::new(); *N.get_or_init(|| curated().len() + leaves().len()) }
+    /// the curated documents before the deep / shared ones added in round 5
+    pub fn always_small() -> usize { static N: std::sync::OnceLock<usize> = std::sync::OnceLock::new(); *N.get_or_init(|| curated_small().len()) }
+    /// `depth` nested containers (objects under "a" and arrays, alternating) around a small tree with sibling subtrees
+    pub fn deep_doc(depth: usize) -> Value {
+        let mut v = json!({"v": 1, "w": {"v": 2, "a": [3]}, "a": {"v": 4}, "x": [{"v": 5}, 6]});
+        for i in 0..depth { v = if i % 3 == 2 { json!([v]) } else { json!({"a": v}) }; }
+        v
+    }
     pub fn curated() -> Vec<Value> {
+        let mut c = curated_small();
+        // round 5: documents nested far deeper than any parser limit (a Value built in code), with several sibling subtrees at the bottom
+        c.push(deep_doc(70));
+        c.push(deep_doc(200));
+        // structurally equal containers at several places (shared allocations in the Rc-based third implementation)
+        c.push(json!({"p": {"retries": 3, "k": [1, 2]}, "q": {"retries": 3, "k": [1, 2]}, "r": [{"k": [1, 2]}, {"retries": 3, "k": [1, 2]}], "a": {"k": [1, 2]}}));
+        c.push(json!([[1, 2], [1, 2], [[1, 2]], {"a": [1, 2], "b": [1, 2]}]));
+        c.push(json!([{"a": {"p": [1], "q": [1]}, "b": {"p": [1], "q": [2]}}, {"a": {"p": [1], "q": [1]}, "b": {"p": [1], "q": [1]}}, {"a": {"p": [1], "q": [1]}, "b": {"p": [2], "q": [1]}}]));
+        c
+    }
+    pub fn curated_small() -> Vec<Value> {
         vec![
             json!([[{"a": 1}], [{"b": 1}]]),
             json!([{"a": []}, {"a": {}}, {"a": ""}, {"b": 1}]),
@@ -211,6 +230,29 @@ pub mod gen {
             t(rel(vec![name("\"'q'\"")])),
             t(rel(vec![name("'a\\/b'")])),                                                                                                                                              // @['a\/b']  (bare existence test, escaped solidus in the name)
             nt(rel(vec![name("'a\\/b'")])),                                                                                                                                             // !@['a\/b']
+            // round 5: `<=` / `>=` between operands that are equal but not ordered (booleans, null, containers, two empty results), literal on the LEFT
+            // of every operator, literal FIRST arguments of functions
+            cmp(Lte(cur(vec![]), Comparable::Literal(Literal::Bool(true)))),   // @ <= true
+            cmp(Gte(cur(vec![]), Comparable::Literal(Literal::Null))),         // @ >= null
+            cmp(Lte(cur(vec![sn("a")]), cur(vec![sn("b")]))),                  // @.a <= @.b
+            cmp(Gte(cur(vec![sn("a")]), cur(vec![sn("b")]))),                  // @.a >= @.b
+            cmp(Gte(cur(vec![sn("zz")]), rootq(vec![sn("zz")]))),              // @.zz >= $.zz   (nothing on both sides)
+            cmp(Lte(cur(vec![]), cur(vec![]))),                                // @ <= @
+            cmp(Lt(lit_i(1), cur(vec![]))),                                    // 1 < @
+            cmp(Lte(lit_i(1), cur(vec![]))),                                   // 1 <= @
+            cmp(Gt(lit_i(1), cur(vec![]))),                                    // 1 > @
+            cmp(Gte(lit_i(1), cur(vec![]))),                                   // 1 >= @
+            cmp(Lte(lit_i(2), cur(vec![sn("a")]))),                            // 2 <= @.a
+            cmp(Gte(lit_f(1.5), cur(vec![sn("a")]))),                          // 1.5 >= @.a
+            cmp(Ne(lit_i(1), cur(vec![]))),                                    // 1 != @
+            cmp(Lte(lit_i(1), Comparable::Function(TestFunction::Count(arg_rel(vec![Segment::Selector(Selector::Wildcard)]))))),   // 1 <= count(@.*)
+            cmp(Gte(lit_i(2), Comparable::Function(TestFunction::Length(Box::new(arg_rel(vec![])))))),                           // 2 >= length(@)
+            cmp(Lt(lit_s("a"), cur(vec![]))),                                  // 'a' < @
+            cmp(Eq(Comparable::Function(TestFunction::Length(Box::new(arg_s("abc")))), lit_i(3))),                                // length('abc') == 3
+            cmp(Eq(Comparable::Function(TestFunction::Length(Box::new(arg_rel(vec![])))), Comparable::Function(TestFunction::Length(Box::new(arg_s("\u{436}\u{416}")))))),   // length(@) == length('жЖ')
+            t(Test::Function(Box::new(TestFunction::Search(arg_s("hello world ab"), arg_rel(vec![]))))),                          // search('hello world ab', @)
+            t(Test::Function(Box::new(TestFunction::Match(arg_s("ab"), arg_rel(vec![]))))),                                       // match('ab', @)
+            nt(Test::Function(Box::new(TestFunction::Match(arg_s("a"), arg_rel(vec![name("a")]))))),                              // !match('a', @.a)
             t(Test::AbsQuery(JpQuery::new(vec![name("a"), name("b")]))),                                                                                                               // $.a.b
             t(Test::AbsQuery(JpQuery::new(vec![name("ab")]))),                                                                                                                         // $.ab   (prints like $.a.b in a careless Display)                                                                                                                                           // @["'q'"]  (a member whose name is enclosed in quotes)
         ]
